@@ -101,6 +101,8 @@ func (w *L1World) trace() []string {
 func newL1World(run *mon.Run, rng *mon.Rand, mons MonSet, cfg WorldCfg) *L1World {
 	w := &L1World{run: run, rng: rng, mons: mons, cfg: cfg, br: map[uint64]*wBridge{}, feat: map[string]int{}}
 	w.env = newL1EnvAt(0, nil, cfg.StartTime)
+	// half of the histories run every transaction first on a throw-away branch, like CheckTx does
+	w.env.L1.Speculate = rng.Bool()
 	for i := 0; i < 3; i++ {
 		s := sim.NewAccount(fmt.Sprintf("stranger%d", i))
 		w.strangers = append(w.strangers, s)
@@ -826,6 +828,7 @@ func (w *L1World) opDelete() {
 		valid := idx >= 1 && idx < next
 		if w.mons.C11 {
 			w.run.Check("C11.delete_in_range", valid, "c11.delete_range", w.trace(), "deletion of index %d accepted while next is %d", idx, next)
+			w.run.Check("C11.delete_removes_only_nonfinal_suffix", !anySurelyFinalInSuffix, "c11.deleted_final_output", w.trace(), "deletion from index %d on bridge %d removed an output that was already final", idx, b.id)
 		}
 		if w.mons.C05 {
 			w.run.Check("C05.final_not_deletable", !anySurelyFinalInSuffix, "c05.deleted_final_output", w.trace(), "deletion from index %d on bridge %d removed an output that was final", idx, b.id)
